@@ -978,6 +978,19 @@ func mayBeLocalNil(v ssa.Value, seen map[ssa.Value]bool) string {
 				}
 			}
 		}
+		// generic collectors of the standard library hand back a nil slice when there was nothing to collect
+		if callee := calleeOf(&x.Call); callee != nil && originPkgPath(callee) == "slices" {
+			switch nm := strings.SplitN(callee.Name(), "[", 2)[0]; nm {
+			case "Collect", "Sorted", "SortedFunc", "SortedStableFunc", "Concat":
+				return "slices." + nm + " returns nil when it collects no element"
+			case "AppendSeq", "Insert":
+				if len(x.Call.Args) > 0 {
+					if w := mayBeLocalNil(x.Call.Args[0], seen); w != "" {
+						return "slices." + nm + " onto a possibly nil slice of possibly zero elements"
+					}
+				}
+			}
+		}
 		if builtinName(&x.Call) == "append" {
 			// append(nil, zero elements...) is nil
 			if w := mayBeLocalNil(x.Call.Args[0], seen); w != "" {
